@@ -661,14 +661,23 @@ def deriv(p, atom):
 def design_form(ctx, f, expr, row, i, env):
     """normal form of a design-matrix expression over atoms ('G', param, role); row restriction `row` is stripped
     after checking it is the block's row set"""
+    def named(e):
+        # an index vector with a name of its own (`cline_ids = cline[idx1]`) reads as its definition
+        for _ in range(3):
+            if isinstance(e, ast.Name) and e.id in env and isinstance(env[e.id], ast.Subscript):
+                e = env[e.id]
+            else:
+                break
+        return e
+
     def at(x, N):
         if isinstance(x, ast.Call) and isinstance(x.func, ast.Attribute) and x.func.attr == "get" and U(x.func.value) == "self" and len(x.args) == 2:
-            a = x.args[1]
+            a = named(x.args[1])
             if isinstance(a, ast.Subscript) and U(a.slice) == row and U(a.value) in ("dd1", "dd2"):
                 return Poly.atom(("G", x.args[0].value, U(a.value)))
             raise AnalysisError(f"{f.site()}: gather `{U(x)}` is not restricted to the block's rows `{row}`")
         if isinstance(x, ast.Subscript) and isinstance(x.value, ast.Attribute) and U(x.value.value) == "self":
-            s = x.slice
+            s = named(x.slice)
             if isinstance(s, ast.Subscript) and U(s.slice) == row and U(s.value) == "cline":
                 return Poly.atom(("G", x.value.attr, "cline"))
             raise AnalysisError(f"{f.site()}: `{U(x)}` is not indexed by cline[{row}]")
